@@ -1201,6 +1201,8 @@ def main(ctx):
                   cands)
     ctx.extra['scenarios'] = nscn
     ctx.extra['operations'] = ops
+    ctx.extra['exhaustive_bounds'] = [b for b in ctx.bounds
+                                      if 'not exhaustive' not in b]
 
     # (c) census
     _census(ctx, tagbase, 256 if quick else 32, cands, refs)
